@@ -63,10 +63,12 @@ func runRoundTrip(o opts, out *Output, sig int) {
 			in   itemsOut
 			res  *batchOut
 			data any
+			big  bool // compared on the Go side only (too large to hand to Coq as a term)
 		}
 		var queue []queued
 		consumeOne := func(q queued) bool {
 			b, in, res, data := q.b, q.in, q.res, q.data
+			small := itemCount(data) <= 40 && !q.big
 			var outItems itemsOut
 			cr := consumeAny(cons, signal, res.Bar)
 			stats["consumer_"+cr.Class]++
@@ -76,12 +78,12 @@ func runRoundTrip(o opts, out *Output, sig int) {
 				return false
 			}
 			outItems = cr.Trees
-			if sig == 2 && cr.DecodedPoints != nil && itemCount(data) <= 40 {
+			if sig == 2 && cr.DecodedPoints != nil && small {
 				if pc, ok := pointCase(res.Recs, cr.DecodedPoints); ok {
 					ptCases = append(ptCases, " "+pc)
 				}
 			}
-			if sig < 2 && cr.Decoded != nil && itemCount(data) <= 40 {
+			if sig < 2 && cr.Decoded != nil && small {
 				itemTy := int32(41)
 				if sig == 1 {
 					itemTy = 31
@@ -102,7 +104,7 @@ func runRoundTrip(o opts, out *Output, sig int) {
 					nt++
 				}
 			}
-			if itemCount(data) <= 40 {
+			if small {
 				if nc > 0 {
 					sb.WriteString(";\n")
 				}
@@ -121,7 +123,16 @@ func runRoundTrip(o opts, out *Output, sig int) {
 		okSoFar := true
 		for b := 0; b < nb && okSoFar; b++ {
 			data := genAnyN(g, r, sig, 1+r.Intn(7))
-			if r.Chance(4) {
+			big := false
+			if c%40 == 13 && b <= 1 {
+				// sizes far outside what the generator draws: 70 KB names, 2 MB values, 20001 children of one item
+				data, big = extremeBatch(sig), true
+				stats["extreme_batches"]++
+			} else if c%40 == 27 {
+				// every string column of every record fresh on every item, each item in its own resource and scope
+				data = distinctRich(sig, 100+r.Intn(250), 1000*b, true)
+				stats["distinct_rich_batches"]++
+			} else if r.Chance(4) {
 				wg := &OGen{r: r.Fork(), Wide: true}
 				data = genAnyN(wg, r, sig, 300+r.Intn(200)) // many dictionary columns crossing an index width in one batch
 			} else if optName != "default" && r.Bool() {
@@ -141,7 +152,7 @@ func runRoundTrip(o opts, out *Output, sig int) {
 			case pmetric.Metrics:
 				in = metricsItems(d)
 			}
-			if len(idLines) < 400 {
+			if len(idLines) < 400 && !big {
 				idCases(data, out, fmt.Sprintf("C0%d", sig+1), &idLines)
 			}
 			res := pr.produce(data)
@@ -156,7 +167,7 @@ func runRoundTrip(o opts, out *Output, sig int) {
 			for _, e := range res.Events {
 				stats["event_"+e.Kind]++
 			}
-			queue = append(queue, queued{b, in, res, data})
+			queue = append(queue, queued{b, in, res, data, big})
 			for len(queue) > lag && okSoFar {
 				okSoFar = consumeOne(queue[0])
 				queue = queue[1:]
